@@ -245,9 +245,13 @@ class Trace:
         orig_admm = admm.admm_optimize_theta
 
         def admm_wrapped(*a, **k):
-            tr.admm_calls.append({"args": a, "kwargs": dict(k),
-                                  "cov_copy": np.array(a[0], copy=True) if a else None})
-            return orig_admm(*a, **k)
+            rec = {"args": a, "kwargs": dict(k), "cov_copy": np.array(a[0], copy=True) if a else None, "result": None}
+            tr.admm_calls.append(rec)
+            out = orig_admm(*a, **k)
+            th = getattr(out, "theta", None)
+            if th is not None:
+                rec["result"] = np.array(th, dtype=float, copy=True)     # the raw (compressed) solver output
+            return out
         # the in-process pool calls the function object it is handed; graphical_lasso looks it
         # up as `admm.admm_optimize_theta` at submit time
         admm_wrapped.__module__ = "fast_ticc.admm"
